@@ -1,0 +1,82 @@
+//go:build verif
+
+// Contracts for contract-based deductive verification (checked by /verif/govc).
+// This file is comment-only and compiled only with the build tag "verif".
+
+package libmem
+
+// ---- journal ---------------------------------------------------------------------------------------
+
+//@ pure jwf(j *journal) bool = j != nil ==> j.updates != nil && j.reverts != nil && j.updates != j.reverts
+
+//@ func (*journal).assign ints=bv64
+//@   requires jwf(j)
+//@   modifies j.updates[*] if j != nil, j.reverts[*] if j != nil
+//@   ensures[C06] j != nil ==> dom(j.updates) == upd(old(dom(j.updates)), id, true) && vals(j.updates) == upd(old(vals(j.updates)), id, zone)
+//@   ensures[C06] j != nil && old(id in j.reverts) ==> dom(j.reverts) == old(dom(j.reverts)) && vals(j.reverts) == old(vals(j.reverts))
+//@   ensures[C06] j != nil && !old(id in j.reverts) ==> dom(j.reverts) == upd(old(dom(j.reverts)), id, true) && vals(j.reverts) == upd(old(vals(j.reverts)), id, 0)
+
+//@ func (*journal).delete ints=bv64
+//@   requires jwf(j)
+//@   modifies j.reverts[*] if j != nil
+//@   ensures[C06] j != nil && old(id in j.reverts) ==> dom(j.reverts) == old(dom(j.reverts)) && vals(j.reverts) == old(vals(j.reverts))
+//@   ensures[C06] j != nil && !old(id in j.reverts) ==> dom(j.reverts) == upd(old(dom(j.reverts)), id, true) && vals(j.reverts) == upd(old(vals(j.reverts)), id, zone)
+
+// ---- allocator representation invariant -------------------------------------------------------------
+// users[id] = z  <=>  id in zones[z].users ; zone objects and their user maps are pairwise distinct;
+// a zone's user map stores each request under its own id; assigned zones are non-empty masks.
+
+//@ pure awf(a *Allocator) bool = a != nil && a.zones != nil && a.users != nil && a.requests != nil && jwf(a.journal) &&
+//@    (a.journal != nil ==> a.journal.updates != a.users && a.journal.reverts != a.users) &&
+//@    (forall z NodeMask :: z in a.zones ==> a.zones[z] != nil && a.zones[z].users != nil) &&
+//@    (forall z1 NodeMask, z2 NodeMask :: z1 in a.zones && z2 in a.zones && z1 != z2 ==> a.zones[z1] != a.zones[z2] && a.zones[z1].users != a.zones[z2].users) &&
+//@    (forall id string :: id in a.users ==> a.users[id] in a.zones && id in a.zones[a.users[id]].users) &&
+//@    (forall z NodeMask, id string :: z in a.zones && id in a.zones[z].users ==> id in a.users && a.users[id] == z && a.zones[z].users[id] != nil && a.zones[z].users[id].id == id)
+
+// Formatting helpers used only in log messages (declared, not verified).
+//@ effect zoneName pure
+//@ effect prettySize pure
+
+// zoneType / zoneCapacity only read allocator state (their values matter for C07, not for C06).
+//@ func (*Allocator).zoneType ints=bv64 tags=C06
+//@ func (*Allocator).zoneCapacity ints=bv64 tags=C06
+
+//@ func (*Allocator).zoneAssign ints=bv64
+//@   requires awf(a) && req != nil && !(req.id in a.users)
+//@   modifies a.zones[*], a.users[*], req.zone, a.journal.updates[*] if a.journal != nil, a.journal.reverts[*] if a.journal != nil,
+//@            a.zones[zone].users[*] if zone in a.zones
+//@   ensures[C06] awf(a)
+//@   ensures[C06] dom(a.users) == upd(old(dom(a.users)), req.id, true) && vals(a.users) == upd(old(vals(a.users)), req.id, zone)
+//@   ensures[C06] req.zone == zone && zone in a.zones && a.zones[zone].users[req.id] == req
+//@   ensures[C06] forall z NodeMask :: z != zone ==> (z in a.zones) == old(z in a.zones) && a.zones[z] == old(a.zones[z])
+//@   ensures[C06] old(zone in a.zones) ==> a.zones[zone] == old(a.zones[zone])
+//@   ensures[C06] a.journal != nil ==> dom(a.journal.updates) == upd(old(dom(a.journal.updates)), req.id, true) && vals(a.journal.updates) == upd(old(vals(a.journal.updates)), req.id, zone)
+//@   ensures[C06] a.journal != nil && old(req.id in a.journal.reverts) ==> dom(a.journal.reverts) == old(dom(a.journal.reverts)) && vals(a.journal.reverts) == old(vals(a.journal.reverts))
+//@   ensures[C06] a.journal != nil && !old(req.id in a.journal.reverts) ==> dom(a.journal.reverts) == upd(old(dom(a.journal.reverts)), req.id, true) && vals(a.journal.reverts) == upd(old(vals(a.journal.reverts)), req.id, 0)
+
+//@ func (*Allocator).zoneRemove ints=bv64
+//@   requires awf(a)
+//@   let hit = zone in a.zones && id in a.zones[zone].users
+//@   let req = a.zones[zone].users[id]
+//@   modifies a.zones[zone].users[*] if hit, a.users[*] if hit, req.zone if hit, a.journal.reverts[*] if hit && a.journal != nil
+//@   ensures[C06] awf(a)
+//@   ensures[C06] !hit ==> dom(a.users) == old(dom(a.users)) && vals(a.users) == old(vals(a.users))
+//@   ensures[C06] hit ==> dom(a.users) == upd(old(dom(a.users)), id, false) && vals(a.users) == upd(old(vals(a.users)), id, 0)
+//@   ensures[C06] hit ==> req.zone == 0
+//@   ensures[C06] hit && a.journal != nil && old(id in a.journal.reverts) ==> dom(a.journal.reverts) == old(dom(a.journal.reverts)) && vals(a.journal.reverts) == old(vals(a.journal.reverts))
+//@   ensures[C06] hit && a.journal != nil && !old(id in a.journal.reverts) ==> dom(a.journal.reverts) == upd(old(dom(a.journal.reverts)), id, true) && vals(a.journal.reverts) == upd(old(vals(a.journal.reverts)), id, zone)
+
+//@ func (*Allocator).zoneMove ints=bv64
+//@   requires awf(a) && req != nil && (req.id in a.users ==> a.zones[a.users[req.id]].users[req.id] == req)
+//@   let had = req.id in a.users
+//@   let from = a.users[req.id]
+//@   let same = had && from == zone
+//@   modifies a.zones[*] if !same, a.users[*] if !same, req.zone if !same, a.journal.updates[*] if !same && a.journal != nil, a.journal.reverts[*] if !same && a.journal != nil,
+//@            a.zones[zone].users[*] if !same && zone in a.zones, a.zones[from].users[*] if !same && had
+//@   ensures[C06] awf(a)
+//@   ensures[C06] same ==> dom(a.users) == old(dom(a.users)) && vals(a.users) == old(vals(a.users))
+//@   ensures[C06] !same ==> dom(a.users) == upd(old(dom(a.users)), req.id, true) && vals(a.users) == upd(old(vals(a.users)), req.id, zone) && req.zone == zone
+//@   ensures[C06] !same && a.journal != nil ==> dom(a.journal.updates) == upd(old(dom(a.journal.updates)), req.id, true) && vals(a.journal.updates) == upd(old(vals(a.journal.updates)), req.id, zone)
+//@   ensures[C06] !same && a.journal != nil && old(req.id in a.journal.reverts) ==> dom(a.journal.reverts) == old(dom(a.journal.reverts)) && vals(a.journal.reverts) == old(vals(a.journal.reverts))
+//@   ensures[C06] !same && a.journal != nil && !old(req.id in a.journal.reverts) ==> dom(a.journal.reverts) == upd(old(dom(a.journal.reverts)), req.id, true) && vals(a.journal.reverts) == upd(old(vals(a.journal.reverts)), req.id, had ? from : 0)
+//@   ensures[C06] same && a.journal != nil ==> dom(a.journal.updates) == old(dom(a.journal.updates)) && vals(a.journal.updates) == old(vals(a.journal.updates)) && dom(a.journal.reverts) == old(dom(a.journal.reverts)) && vals(a.journal.reverts) == old(vals(a.journal.reverts))
